@@ -34,9 +34,10 @@ type Program struct {
 	Invalid string  // non-empty: what makes the program uncompilable
 	seq     int
 
-	sameNames bool
-	curFile   *File
-	goRot     int
+	sameNames   bool
+	recDefaults bool
+	curFile     *File
+	goRot       int
 }
 
 type File struct {
@@ -99,7 +100,8 @@ const (
 	CString
 	CList
 	CMap
-	CRef // reference to a constant or an enum item
+	CRef    // reference to a constant or an enum item
+	CStruct // struct literal: Items = fieldName(CString), value, ...
 )
 
 type ConstVal struct {
@@ -156,6 +158,7 @@ type Options struct {
 	Dotted       bool // local definitions with dotted names
 	Invalid      bool // inject one unresolvable or ill-typed reference (compile must fail)
 	NoServices   bool
+	StructConsts bool // constants (and defaults) of struct type written as map literals
 	Recursive    bool // recursive types: a struct reaching itself through typedef chains / containers / other structs
 }
 
@@ -213,6 +216,7 @@ func Gen(o Options) *Program {
 	}
 	// definitions, created leaf files first so that includers can refer to them
 	p.sameNames = o.SameNames
+	p.recDefaults = o.StructConsts
 	for i := nf - 1; i >= 0; i-- {
 		f := p.Files[i]
 		p.curFile = f
@@ -281,7 +285,14 @@ func (p *Program) addRecursion() {
 		target = &TypeRef{Base: "map", Key: &TypeRef{Base: "string"}, Elem: target}
 	case 3:
 		// through a second struct
-		mid := p.add(f, &Def{Kind: KStruct, Name: p.name("S"), Fields: []*FieldDef{{ID: 1, Name: "back1", Req: ReqOptional, Type: target}}})
+		back := &FieldDef{ID: 1, Name: "back1", Req: ReqOptional, Type: target}
+		mid := p.add(f, &Def{Kind: KStruct, Name: p.name("S"), Fields: []*FieldDef{back}})
+		if p.recDefaults && p.constructible(s, 0) && simrt.Flip("rec.default", 0.2) {
+			// ... whose back-pointer defaults to a struct constant of the first struct
+			c := p.add(f, &Def{Kind: KConst, Name: p.name("C"), Type: &TypeRef{Ref: &Ref{s.File, s.Name}}})
+			c.Value = p.genValue(f, c.Type, Options{}, 1)
+			back.Default = &ConstVal{Kind: CRef, Ref: &Ref{c.File, c.Name}}
+		}
 		target = &TypeRef{Ref: &Ref{mid.File, mid.Name}}
 	}
 	id := 1
@@ -511,6 +522,10 @@ func (p *Program) genFields(f *File, prefix string, max int, o Options, union bo
 					if simrt.Flip("field.default", 0.35) {
 						fd.Default = p.genValue(f, fd.Type, o, 1)
 					}
+				case "struct":
+					if o.StructConsts && fd.Req == ReqOptional && p.valuable(fd.Type, 1) && simrt.Flip("field.struct-default", 0.2) {
+						fd.Default = p.genValue(f, fd.Type, o, 1)
+					}
 				}
 			}
 		}
@@ -634,7 +649,10 @@ func (p *Program) KindOf(t *TypeRef) string {
 		if d.Kind == KEnum {
 			return "enum"
 		}
-		return "struct"
+		if d.Kind == KStruct {
+			return "struct"
+		}
+		return "structlike"
 	}
 	switch rt.Base {
 	case "bool", "double", "string", "binary", "list", "set", "map":
@@ -652,7 +670,19 @@ func (p *Program) genConstType(f *File, o Options) *TypeRef {
 			named = append(named, d)
 		}
 	}
-	k := ch("const.type", 9)
+	k := ch("const.type", 11)
+	if k >= 9 && o.StructConsts {
+		var ss []*Def
+		for _, d := range p.visible(f, KStruct) {
+			if p.constructible(d, 0) {
+				ss = append(ss, d)
+			}
+		}
+		if len(ss) > 0 {
+			d := ss[ch("const.struct-type", len(ss))]
+			return &TypeRef{Ref: &Ref{d.File, d.Name}}
+		}
+	}
 	switch {
 	case k == 0 && len(named) > 0:
 		d := named[ch("const.type-ref", len(named))]
@@ -673,6 +703,35 @@ func (p *Program) genConstType(f *File, o Options) *TypeRef {
 		return &TypeRef{Base: "map", Key: &TypeRef{Base: "string"}, Elem: p.genScalarType(f, named)}
 	}
 	return &TypeRef{Base: "i32"}
+}
+
+// constructible: a struct literal for d can be written with the value kinds the
+// generator knows (required fields must be of such kinds; depth-limited).
+func (p *Program) constructible(d *Def, depth int) bool {
+	if d == nil || d.Kind != KStruct || depth > 2 {
+		return false
+	}
+	for _, fd := range d.Fields {
+		if fd.Req == ReqRequired && fd.Default == nil && !p.valuable(fd.Type, depth) {
+			return false
+		}
+	}
+	return true
+}
+
+func (p *Program) valuable(t *TypeRef, depth int) bool {
+	switch p.KindOf(t) {
+	case "bool", "int", "double", "string", "enum":
+		return true
+	case "list", "set":
+		return p.valuable(p.RootOf(t).Elem, depth+1)
+	case "map":
+		rt := p.RootOf(t)
+		return p.valuable(rt.Key, depth+1) && p.valuable(rt.Elem, depth+1)
+	case "struct":
+		return p.constructible(p.Lookup(p.RootOf(t).Ref), depth+1)
+	}
+	return false
 }
 
 func (p *Program) genScalarType(f *File, named []*Def) *TypeRef {
@@ -696,7 +755,7 @@ func (p *Program) genValue(f *File, t *TypeRef, o Options, depth int) *ConstVal 
 			if kind == "double" && ck == "int" {
 				ok = true
 			}
-			if ok && kind == "enum" {
+			if ok && (kind == "enum" || kind == "struct") {
 				ok = sameRef(p.RootOf(t).Ref, p.RootOf(c.Type).Ref)
 			}
 			if ok && (kind == "list" || kind == "set" || kind == "map") {
@@ -740,6 +799,19 @@ func (p *Program) genValue(f *File, t *TypeRef, o Options, depth int) *ConstVal 
 		n := ch("val.list-n", 4)
 		for i := 0; i < n; i++ {
 			v.Items = append(v.Items, p.genValue(f, rt.Elem, o, depth+1))
+		}
+		return v
+	case "struct":
+		d := p.Lookup(p.RootOf(t).Ref)
+		v := &ConstVal{Kind: CStruct}
+		for _, fd := range d.Fields {
+			need := fd.Req == ReqRequired && fd.Default == nil
+			if !p.valuable(fd.Type, depth+1) {
+				continue
+			}
+			if need || simrt.Flip("val.struct-field", 0.5) {
+				v.Items = append(v.Items, &ConstVal{Kind: CString, Str: fd.Name}, p.genValue(f, fd.Type, o, depth+1))
+			}
 		}
 		return v
 	case "map":
@@ -819,7 +891,7 @@ func (p *Program) ConstText(from int, v *ConstVal) string {
 			parts[i] = p.ConstText(from, it)
 		}
 		return "[" + strings.Join(parts, ", ") + "]"
-	case CMap:
+	case CMap, CStruct:
 		var parts []string
 		for i := 0; i+1 < len(v.Items); i += 2 {
 			parts = append(parts, p.ConstText(from, v.Items[i])+": "+p.ConstText(from, v.Items[i+1]))
